@@ -555,7 +555,8 @@ func (f *FS) GoReadFile(path string) ([]byte, error) {
 		return nil, perr("read", path, syscall.EISDIR)
 	}
 	if n.Kind == KFifo {
-		f.s.HarnessFail("Go-level read of a FIFO is not modelled: " + path)
+		data, _ := f.s.Shell.readFifo(n, path)
+		return data, nil
 	}
 	return append([]byte(nil), n.Data...), nil
 }
@@ -627,6 +628,7 @@ type File struct {
 	closed bool
 	std    int // 1: Stdout, 2: Stderr (sink of the current simulation)
 	app    bool
+	fifo   int // 1: read end, 2: write end of a FIFO opened by Go code
 }
 
 func (f *FS) GoOpen(path string) (*File, error) {
@@ -642,7 +644,9 @@ func (f *FS) GoOpen(path string) (*File, error) {
 		return nil, err
 	}
 	if n.Kind == KFifo {
-		f.s.HarnessFail("Go-level open of a FIFO is not modelled: " + path)
+		// open(O_RDONLY) of a FIFO by Go code: blocks until a writer opens it
+		f.s.Shell.openFifoRead(n, path)
+		return &File{fs: f, n: n, name: path, fifo: 1}, nil
 	}
 	return &File{fs: f, n: n, name: path}, nil
 }
@@ -698,6 +702,13 @@ func (fl *File) Write(b []byte) (int, error) {
 	if !fl.write {
 		return 0, perr("write", fl.name, syscall.EBADF)
 	}
+	if fl.fifo == 2 {
+		// (Go ignores SIGPIPE on descriptors other than 1 and 2: the write fails with EPIPE)
+		if !s.Shell.writeOpenFifo(fl.n, fl.name, b) {
+			return 0, perr("write", fl.name, syscall.EPIPE)
+		}
+		return len(b), nil
+	}
 	if !strings.HasPrefix(fl.abs, "/work/log/") {
 		// a write(2) of Go code is a scheduling point like any other system call
 		// (round 6; the library's own log file is exempt: logging never yields)
@@ -730,6 +741,9 @@ func (fl *File) Read(b []byte) (int, error) {
 	if fl.closed {
 		return 0, perr("read", fl.name, syscall.EBADF)
 	}
+	if fl.fifo == 1 {
+		return fl.fs.s.Shell.readOpenFifo(fl.n, fl.name, b)
+	}
 	if fl.n.Kind == KDir {
 		return 0, perr("read", fl.name, syscall.EISDIR)
 	}
@@ -750,6 +764,9 @@ func (fl *File) Close() error {
 		return perr("close", fl.name, syscall.EBADF)
 	}
 	fl.closed = true
+	if fl.fifo != 0 {
+		fl.fs.s.Shell.closeOpenFifo(fl.n, fl.name, fl.fifo == 2)
+	}
 	return nil
 }
 
@@ -802,7 +819,8 @@ func (f *FS) GoOpenFile(path string, flag int) (*File, error) {
 		return nil, perr("open", path, syscall.EISDIR)
 	}
 	if n.Kind == KFifo {
-		f.s.HarnessFail("Go-level open of a FIFO is not modelled: " + path)
+		f.s.Shell.openFifoWrite(n, path)
+		return &File{fs: f, n: n, name: path, write: true, fifo: 2}, nil
 	}
 	_, _, _, abs, _ := f.walk(f.Cwd, path)
 	if flag&O_TRUNC != 0 {
